@@ -254,6 +254,26 @@ def run(ctx):
     ev2 = ctx.evaluator()
     sl = ev2.run(fl)
     v = sl.value()
+    def _is_file_attr(t):
+        t = rules.unfz(t)
+        return isinstance(t, T) and t.op == "ext" and t.args[0].endswith("__file__")
+
+    def english_txt(t):
+        """Does the term denote <directory of the module>/english.txt? (os.path.join(dirname(__file__), ..), Path(__file__).with_name(..),
+        Path(__file__).parent / ..)"""
+        t = rules.unfz(t)
+        if not isinstance(t, T):
+            return False
+        if t.op == "pathjoin" and len(t.args) == 2 and t.args[1] == "english.txt":
+            d = rules.unfz(t.args[0])
+            return isinstance(d, T) and d.op == "app" and d.args[0] == "os.path.dirname" and _is_file_attr(d.args[1][0])
+        if t.op == "app" and t.args[0] == "m:with_name" and len(t.args[1]) == 2 and t.args[1][1] == "english.txt":
+            pth = rules.unfz(t.args[1][0])
+            return isinstance(pth, T) and pth.op == "app" and pth.args[0] in ("pathlib.Path", "pathlib.PurePath") and _is_file_attr(pth.args[1][0])
+        if t.op == "app" and t.args[0] in ("pathlib.Path", "pathlib.PurePath") and len(t.args[1]) == 1:
+            return english_txt(t.args[1][0])
+        return False
+
     def lines_of_file(t):
         # read().splitlines(), readlines() or iteration over the open text file: the same lines for a file whose only line
         # separator is "\n" (checked on english.txt itself below)
@@ -262,7 +282,10 @@ def run(ctx):
             t = rules.unfz(t.args[0])
             if isinstance(t, T) and t.op == "io" and t.args[0] == "read":
                 t = rules.unfz(t.args[1])
-        return isinstance(t, T) and t.op == "enter" and isinstance(t.args[0], T) and t.args[0].op == "app" and t.args[0].args[0] == "open"
+            elif isinstance(t, T) and t.op == "app" and t.args[0] == "m:read_text" and len(t.args[1]) >= 1:
+                return english_txt(t.args[1][0])  # Path(...).read_text()
+        return isinstance(t, T) and t.op == "enter" and isinstance(t.args[0], T) and t.args[0].op == "app" and t.args[0].args[0] == "open" and \
+            (english_txt(t.args[0].args[1][0]) or tm.contains(t.args[0].args[1][0], lambda u: u == "english.txt"))
     okl = isinstance(v, T) and v.op == "map" and tm.veq(v.args[0], T("m:strip", (tm.bv(0),), tm.ANY)) and v.args[2] is None and tm.contains(v.args[1], lambda t: t == "english.txt") and \
         lines_of_file(v.args[1])
     R.check("C10.1", "TERM-EQ", fl, "load_wordlist = stripped lines of english.txt next to the module", okl, "load_wordlist returns %s" % tm.show(v)[:200])
